@@ -140,7 +140,7 @@ Definition DefSpec (look : id -> option details) (names : list (ustring * id)) (
   match d with
   | RdStruct n rule deny cdef fs =>
       exists ps, det = DStruct n None ps deny /\ Forall2 (FldRel look names U rule cdef) fs ps
-  | RdNewtype n t => exists i, det = DNewtype n None i CNone /\ MS look names t i
+  | RdNewtype n t => exists i, det = DEnum n None TagUntagged [mkVariant [] n (VItem i)] false [] /\ MS look names t i
   | RdEnum n tag rule deny vs =>
       forallb (fun v => match rv_shape v with RvUnit => true | _ => false end) vs = true ->
       det = DEnum n None tag (unit_variants rule vs) deny []
